@@ -59,7 +59,13 @@ static void reset(int d, int s, int m, int r)
 	mq = calloc(1, sizeof(*mq));
 	vrt_reset();
 	vrt_clear_regions();
-	messageq_init(mq, store, depth * MSGLEN, MSGLEN);
+	static unsigned nresets;
+	if (MSGLEN == 8 && (nresets++ & 1)) {
+		/* the static initialiser, its arguments spelled as compound expressions */
+		messageq_t q = MESSAGEQ_VAR_INIT(store, (size_t)depth * 4 + (size_t)depth * 4, 4 + 4);
+		memcpy(mq, &q, sizeof(q));
+	} else
+		messageq_init(mq, store, depth * MSGLEN, MSGLEN);
 	vrt_region("num_free", (void *)&mq->num_free, sizeof(mq->num_free), 0, 1);
 	vrt_region("sendp", (void *)&mq->sendp, sizeof(mq->sendp), 0, 1);
 	vrt_region("full_flags", (void *)&mq->full_flags, sizeof(mq->full_flags), 0, 1);
